@@ -189,14 +189,20 @@ func nativeReplay(repo string, tape *replayTape, tapePath string) replayOutcome 
 		}
 	}
 	for k, np := range tape.Patches {
-		c := exec.Command("go", "list", "-m", "-f", "{{.Dir}}", np.Module)
-		c.Dir = repo
-		c.Env = append(os.Environ(), "GOFLAGS=-mod=mod", "GOPROXY=off", "GOSUMDB=off", "GOTOOLCHAIN=local")
-		outb, err := c.Output()
-		if err != nil {
-			return replayOutcome{Outcome: "builderror", Detail: "go list " + np.Module + ": " + err.Error()}
+		var src string
+		if np.Module == "" {
+			// a file of the repository itself (the native stand-in for a redirect of the symbolic run)
+			src = filepath.Join(repo, np.File)
+		} else {
+			c := exec.Command("go", "list", "-m", "-f", "{{.Dir}}", np.Module)
+			c.Dir = repo
+			c.Env = append(os.Environ(), "GOFLAGS=-mod=mod", "GOPROXY=off", "GOSUMDB=off", "GOTOOLCHAIN=local")
+			outb, err := c.Output()
+			if err != nil {
+				return replayOutcome{Outcome: "builderror", Detail: "go list " + np.Module + ": " + err.Error()}
+			}
+			src = filepath.Join(strings.TrimSpace(string(outb)), np.File)
 		}
-		src := filepath.Join(strings.TrimSpace(string(outb)), np.File)
 		data, err := os.ReadFile(src)
 		if err != nil || !strings.Contains(string(data), np.Old) {
 			return replayOutcome{Outcome: "builderror", Detail: "patch target not found in " + src}
